@@ -45,6 +45,15 @@ def sweep(ck, L, fname, exp, Zs, macs, st, two_args=True, skip=()):
     else:
         ZZ, MM = Zs, np.zeros(len(Zs), int)
         r = L.call(fname, ZZ)
+    # the same calls without an error slot and in plain grid order must return the same bits (the main pass runs in random order)
+    if L.flavour == 'plain':
+        for tag, L2 in (('without-error-slot', execlib.Lib(L.config, env={'XV_NOSLOT': '1'})), ('in-grid-order', execlib.Lib(L.config, shuffle=False))):
+            r2 = L2.call(fname, ZZ, MM) if two_args else L2.call(fname, ZZ)
+            st['calls'] += len(ZZ)
+            bad = np.nonzero(r2.v.view('u8') != r.v.view('u8'))[0]
+            for k in bad[:2]:
+                ck.violation('c01:%s:value-differs-%s' % (fname, tag), '%s returns %r %s and %r otherwise' % (fname, float(r2.v[k]), tag.replace('-', ' '), float(r.v[k])),
+                             dict(call='%s(%d,%d)' % (fname, ZZ[k], MM[k]) if two_args else '%s(%d)' % (fname, ZZ[k]), config=L.config))
     ref = np.array([exp.get((int(z), int(m)) if two_args else int(z), np.nan) for z, m in zip(ZZ, MM)])
     has = ~np.isnan(ref) & (ZZ >= 1) & (ZZ <= 120)
     st['calls'] += len(ZZ)
@@ -83,13 +92,13 @@ def main(tier):
     lines = names_by_value(mac, '_LINE')
     trans = names_by_value(mac, '_TRANS')
     st = dict(calls=0, positive=0, error_cells=0, worst_rel=0.0, samples=[], per_function={}, unaddressable={})
-    Zs = list(range(-3, 126)) + (EXTREME if tier == 'thorough' else [])
+    Zs = list(range(-3, 126)) + EXTREME
     sh_lo, sh_hi = min(shells), max(shells)
     ln_lo, ln_hi = min(lines), max(lines)
     tr_lo, tr_hi = min(trans), max(trans)
-    shell_m = list(range(sh_lo - 5, sh_hi + 6)) + (EXTREME if tier == 'thorough' else [])
-    line_m = list(range(ln_lo - 5, ln_hi + 6)) + (EXTREME if tier == 'thorough' else [])
-    trans_m = list(range(tr_lo - 5, tr_hi + 6)) + (EXTREME if tier == 'thorough' else [])
+    shell_m = list(range(sh_lo - 5, sh_hi + 6)) + EXTREME
+    line_m = list(range(ln_lo - 5, ln_hi + 6)) + EXTREME
+    trans_m = list(range(tr_lo - 5, tr_hi + 6)) + EXTREME
     group_vals = {mac.int[g + '_LINE'] for g in LINE_GROUPS}
     flavours = ['plain'] if tier == 'quick' else ['plain', 'asan']
     cp = refdata.compton()
